@@ -1,5 +1,6 @@
 import Chewing.Model.SqliteV1
 import Chewing.Proofs.Loader
+import Chewing.Proofs.SyllableValid
 /-!
 Lemmas about the `userphrase_v1` migration model (`Model/SqliteV1.lean`) for C19.
 The constants of `Gen/SqliteV1.lean` are unfolded here: a change of the SELECT list, of the phone
@@ -22,7 +23,7 @@ theorem getInt_ok (r : V1Row) (bits i c : Nat) (v : Nat) (hc : Gen.v1SelectIdx[i
 
 theorem readPhones_map (r : V1Row) : ∀ (is vs : List Nat), is.length = vs.length →
     (∀ p ∈ is.zip vs, getInt r Gen.v1PhoneBits p.1 = .ok p.2) →
-    readPhones r is = .ok (vs.filter (· ≠ 0))
+    readPhones r is = .ok (vs.filter keepPhone)
   | [], [], _, _ => rfl
   | [], _ :: _, hl, _ => by cases hl
   | _ :: _, [], hl, _ => by cases hl
@@ -30,14 +31,14 @@ theorem readPhones_map (r : V1Row) : ∀ (is vs : List Nat), is.length = vs.leng
     have h1 : getInt r Gen.v1PhoneBits i = .ok v := h (i, v) (by simp)
     have h2 := readPhones_map r is vs (by simpa using hl) (fun p hp => h p (by simp [hp]))
     simp only [readPhones, h1, h2]
-    by_cases hv : v = 0 <;> simp [hv, List.filter]
+    cases hv : keepPhone v <;> simp [hv, List.filter]
 
 /-- the phone loop reads ALL eleven phone columns and keeps exactly the non-zero ones, in order -/
 theorem readPhones_all (time user maxf orig len : Nat) (phrase : List Nat)
     (p0 p1 p2 p3 p4 p5 p6 p7 p8 p9 p10 : Nat)
     (h : ∀ p ∈ [p0, p1, p2, p3, p4, p5, p6, p7, p8, p9, p10], p < 65536) :
     readPhones (rowOf time user maxf orig len [p0, p1, p2, p3, p4, p5, p6, p7, p8, p9, p10] phrase) phoneIdxs
-      = .ok ([p0, p1, p2, p3, p4, p5, p6, p7, p8, p9, p10].filter (· ≠ 0)) := by
+      = .ok ([p0, p1, p2, p3, p4, p5, p6, p7, p8, p9, p10].filter keepPhone) := by
   have e : phoneIdxs = [4, 5, 6, 7, 8, 9, 10, 11, 12, 13, 14] := by decide
   rw [e]
   have g : ∀ (i j : Nat) (p : Nat), Gen.v1SelectIdx[i]? = some (5 + j) →
@@ -70,7 +71,7 @@ theorem readPhones_all (time user maxf orig len : Nat) (phrase : List Nat)
 
 theorem readPhones_len11 (time user maxf orig len : Nat) (phrase : List Nat) (phones : List Nat)
     (hl : phones.length = 11) (h : ∀ p ∈ phones, p < 65536) :
-    readPhones (rowOf time user maxf orig len phones phrase) phoneIdxs = .ok (phones.filter (· ≠ 0)) := by
+    readPhones (rowOf time user maxf orig len phones phrase) phoneIdxs = .ok (phones.filter keepPhone) := by
   match phones, hl, h with
   | [p0, p1, p2, p3, p4, p5, p6, p7, p8, p9, p10], _, h => exact readPhones_all time user maxf orig len phrase _ _ _ _ _ _ _ _ _ _ _ h
 
@@ -110,7 +111,7 @@ theorem readRow_rowOf (time user maxf orig len : Nat) (phrase : List Nat) (phone
     (hl : phones.length = 11) (h : ∀ p ∈ phones, p < 65536) (hu : user < 2 ^ 32) (ho : orig < 2 ^ 32)
     (ht : time < 2 ^ 64) :
     readRow (rowOf time user maxf orig len phones phrase) =
-      .ok { syls := phones.filter (· ≠ 0), phrase := phrase, freq := orig, userFreq := user, time := time } := by
+      .ok { syls := phones.filter keepPhone, phrase := phrase, freq := orig, userFreq := user, time := time } := by
   unfold readRow
   rw [shape_ok, dict_phrase_from, dict_freq_from, up_userfreq_from, up_time_from,
     readPhones_len11 time user maxf orig len phrase phones hl h, item1_rowOf, item2_rowOf _ _ _ _ _ _ _ ho,
@@ -128,11 +129,14 @@ structure V1Rec where
   time : Nat
 deriving Repr, DecidableEq
 
-/-- 1..11 syllables, each a non-zero 16-bit value; 32-bit frequencies; a time SQLite can hold -/
+/-- 1..11 syllables, each the code of a non-empty syllable (a value `Syllable::try_from` accepts — since the repair
+    of C13's F47 no other value is a syllable — other than the empty pattern); 32-bit frequencies; a time SQLite
+    can hold -/
 structure V1Rec.WF (g : V1Rec) : Prop where
   len_pos : 1 ≤ g.syls.length
   len_le : g.syls.length ≤ 11
   syl_ok : ∀ s ∈ g.syls, 0 < s ∧ s < 65536
+  syl_valid : ∀ s ∈ g.syls, keepPhone s = true
   orig_ok : g.orig < 2 ^ 32
   user_ok : g.user < 2 ^ 32
   time_ok : g.time < 2 ^ 63
@@ -141,21 +145,22 @@ def V1Rec.row (g : V1Rec) : V1Row := mkRow g.time g.user g.maxf g.orig g.len g.s
 def V1Rec.item (g : V1Rec) : Item :=
   { syls := g.syls, phrase := g.phrase, freq := g.orig, userFreq := g.user, time := g.time }
 
-theorem filter_padded (syls : List Nat) (n : Nat) (h : ∀ s ∈ syls, 0 < s) :
-    (syls ++ List.replicate n 0).filter (· ≠ 0) = syls := by
+theorem filter_padded (syls : List Nat) (n : Nat) (h : ∀ s ∈ syls, keepPhone s = true) :
+    (syls ++ List.replicate n 0).filter keepPhone = syls := by
   rw [List.filter_append]
-  have h1 : syls.filter (· ≠ 0) = syls := List.filter_eq_self.mpr (fun s hs => by have := h s hs; simp; omega)
-  have h2 : (List.replicate n 0).filter (· ≠ 0) = [] := by
+  have h1 : syls.filter keepPhone = syls := List.filter_eq_self.mpr h
+  have h2 : (List.replicate n 0).filter keepPhone = [] := by
     apply List.filter_eq_nil_iff.mpr
     intro a ha
-    simp [List.eq_of_mem_replicate ha]
+    rw [List.eq_of_mem_replicate ha]
+    decide
   rw [h1, h2, List.append_nil]
 
 theorem readRow_wf (g : V1Rec) (h : g.WF) : readRow g.row = .ok g.item := by
   have e : g.row = rowOf g.time g.user g.maxf g.orig g.len (g.syls ++ List.replicate (11 - g.syls.length) 0) g.phrase := rfl
   rw [e, readRow_rowOf _ _ _ _ _ _ _ (by have := h.len_le; simp; omega) ?_ h.user_ok h.orig_ok
     (Nat.lt_trans h.time_ok (by decide))]
-  · rw [filter_padded _ _ (fun s hs => (h.syl_ok s hs).1)]; rfl
+  · rw [filter_padded _ _ h.syl_valid]; rfl
   · intro p hp
     rcases List.mem_append.mp hp with hp | hp
     · exact (h.syl_ok p hp).2
